@@ -261,6 +261,26 @@ def write_status_facts():
     return {"writeStatusMatchedById": ok}
 
 
+def listdir_iter_facts():
+    """SFTPClient.listdir_iter: the list of request ids awaited in a round (`nums`) is re-initialised inside the round
+    loop (an assignment `nums = list()` / `nums = []` in the body of the `while True:`), and the ids are added one
+    per request sent."""
+    from paramiko.sftp_client import SFTPClient
+
+    fn = ast.parse(textwrap.dedent(inspect.getsource(SFTPClient.listdir_iter))).body[0]
+    loops = [n for n in ast.walk(fn) if isinstance(n, ast.While)]
+    ok = False
+    for lp in loops:
+        for n in ast.walk(lp):
+            if (isinstance(n, ast.Assign) and len(n.targets) == 1 and isinstance(n.targets[0], ast.Name)
+                    and n.targets[0].id == "nums"):
+                v = n.value
+                if (isinstance(v, ast.List) and not v.elts) or (
+                        isinstance(v, ast.Call) and isinstance(v.func, ast.Name) and v.func.id == "list" and not v.args):
+                    ok = True
+    return {"listdirIterResetsBatch": ok}
+
+
 def lean_source():
     consts, branches, else_types, named = generate()
     pcounts, else_counts, helper_counts = path_counts()
@@ -296,6 +316,9 @@ def lean_source():
              "list, one (filename, longname, attrs) triple per element, unconditionally (AST) -/")
     L.append("def readdirCountMatchesEntries : Bool := %s" % (
         "true" if read_folder_facts()["readdirCountMatchesEntries"] else "false"))
+    L.append("/-- SFTPClient.listdir_iter re-initialises the list of awaited request ids (`nums`) inside its round loop (AST) -/")
+    L.append("def listdirIterResetsBatch : Bool := %s" % (
+        "true" if listdir_iter_facts()["listdirIterResetsBatch"] else "false"))
     L.append("/-- no method of SFTPServer calls Message.add()/add_adaptive_int(): request ids, counts and codes are written "
              "with add_int (4 bytes) whatever their value (AST) -/")
     L.append("def responsesUseFixedWidthFields : Bool := %s" % (
